@@ -264,6 +264,17 @@ fn judge(r: &Run, exp: &refsh::Outcome) -> Option<(String, String)> {
     if !r.stderr.is_empty() != exp.stderr {
         return Some(("stderr".into(), format!("unexpected diagnostics: {:?}", r.stderr)));
     }
+    // no descriptor left behind in the shell process (these scripts never use exec redirections)
+    let fds: Vec<i32> = r
+        .final_fds
+        .as_deref()
+        .unwrap_or("0= 1= 2=")
+        .split_whitespace()
+        .filter_map(|t| t.split('=').next().and_then(|f| f.parse().ok()))
+        .collect();
+    if fds != [0, 1, 2] {
+        return Some(("fd-leak".into(), format!("descriptors open in the shell at exit: {fds:?}")));
+    }
     None
 }
 
